@@ -120,6 +120,9 @@ def run_family(ctx, ios, n, opts, resume=0):
             devk = parse_text(text, ios)
             devk['intfs'] = c['dev']['intfs']
             devk['intf_sub'] = c['dev']['intf_sub']
+            for key in ('shut', 'extra_header'):      # opaque parts of the header
+                if key in c['dev']:
+                    devk[key] = c['dev'][key]
             sc = K.parse_script(r['out'], ios) if r['rc'] == 0 else []
             ocs3.append(K.c_ocase(ios, devk, c['tgt'], c['info'], sc, [], 0))
         out3 = K.eval_ocases(ctx, 'res_%s' % model, ocs3) if ocs3 else []
